@@ -736,7 +736,8 @@ pub fn run_uni_property(opt: &Options, prop: &'static str) -> i32 {
     let budget = if opt.thorough() {
         UniBudget {
             inputs: opt.scaled(match prop {
-                "C03" => 400_000,
+                "C03" => 1_600_000,
+                "C02" => 640_000,
                 _ => 160_000,
             }),
             schedules_per_variant: match prop {
@@ -1106,7 +1107,7 @@ fn minimise_tight(ts: &TaskSet, variant: Variant, task: usize) -> (TaskSet, usiz
 
 pub fn run_c18(opt: &Options) -> i32 {
     let t0 = std::time::Instant::now();
-    let inputs = opt.scaled(if opt.thorough() { 3_000_000 } else { 200_000 });
+    let inputs = opt.scaled(if opt.thorough() { 12_000_000 } else { 200_000 });
     let fps = (Distinct::new(28), Distinct::new(26));
     let root = opt.seed;
     let fin = |mut acc: Acc| -> i32 {
